@@ -9,7 +9,7 @@ import ast
 import itertools
 
 from ..astutil import norm, where
-from ..flow import decision_table
+from ..flow import decision_table, inline_tail_calls
 from ..loader import AnalysisIncomplete, dotted
 
 GRID = "uxarray/grid/grid.py"
@@ -116,6 +116,39 @@ def classify_atom(atom, self_name, other_name):
     return None
 
 
+def _sequential_reads(fnode):
+    """straight-line substitution of locals bound to attribute reads:  a = self.x; b = other.x; if not a.equals(b): ...   ->   if not self.x.equals(other.x): ...
+    (each use sees the binding that textually precedes it in the same statement list or an enclosing one)"""
+    import copy
+
+    def go(stmts, env):
+        env = dict(env)
+        out = []
+        for st in stmts:
+            class T(ast.NodeTransformer):
+                def visit_Name(self, n):
+                    if isinstance(n.ctx, ast.Load) and n.id in env:
+                        return copy.deepcopy(env[n.id])
+                    return n
+            if isinstance(st, ast.Assign) and len(st.targets) == 1 and isinstance(st.targets[0], ast.Name) and isinstance(st.value, (ast.Attribute, ast.Subscript)) \
+                    and all(isinstance(x, (ast.Attribute, ast.Name, ast.Subscript, ast.Constant, ast.expr_context)) for x in ast.walk(st.value)):
+                env[st.targets[0].id] = T().visit(copy.deepcopy(st.value))
+                continue
+            if isinstance(st, ast.If):
+                st = ast.If(test=T().visit(copy.deepcopy(st.test)), body=go(st.body, env) or [ast.Pass()], orelse=go(st.orelse, env))
+            elif isinstance(st, ast.Return) and st.value is not None:
+                st = ast.Return(value=T().visit(copy.deepcopy(st.value)))
+            elif isinstance(st, ast.Assign):
+                st = ast.Assign(targets=st.targets, value=T().visit(copy.deepcopy(st.value)))
+                for t in st.targets:
+                    if isinstance(t, ast.Name):
+                        env.pop(t.id, None)
+            out.append(st)
+        return out
+    new = ast.FunctionDef(name=fnode.name, args=fnode.args, body=go(list(fnode.body), {}), decorator_list=[], lineno=fnode.lineno, col_offset=0)
+    return ast.fix_missing_locations(new)
+
+
 def check(run):
     P = run.program
     run.explanation = (
@@ -137,8 +170,21 @@ def check(run):
         run.incomplete("F-PATH/eq-shape", "Grid.__eq__:signature", where(eq), f"unexpected parameters {params}")
         return
     self_name, other_name = params
+    # a predicate split over helper methods of Grid (return self._part(other)) is read as one
+    gcls = P.cls(f"{GRID}:Grid")
+
+    def _resolve(call):
+        if isinstance(call.func, ast.Attribute) and isinstance(call.func.value, ast.Name) and call.func.value.id == self_name and call.func.attr in gcls.methods and not call.keywords:
+            h = gcls.methods[call.func.attr]
+            hp = h.params()
+            if len(hp) == len(call.args) + 1 and all(isinstance(a, ast.Name) for a in call.args) and h.node is not eq.node:
+                return h.node, dict(zip(hp, [self_name] + [a.id for a in call.args]))
+        return None
+    eq_node = inline_tail_calls(eq.node, _resolve)
+    # locals that are bound several times to plain reads (own = self.a ... own = self.b, left by an unrolled loop) are substituted statement by statement
+    eq_node = _sequential_reads(eq_node)
     try:
-        atoms, table = decision_table(eq.node)
+        atoms, table = decision_table(eq_node)
     except AnalysisIncomplete as e:
         run.incomplete("F-PATH/eq-shape", "Grid.__eq__:body", where(eq), str(e))
         return
